@@ -3561,10 +3561,13 @@ static Token *global_variable(Token *tok, Type *basety, VarAttr *attr) {
     else if (prev && prev->var && !prev->var->is_function)
       var->align = MAX(var->align, prev->var->align);
 
-    if (equal(tok, "="))
+    // A declaration with an initializer is a definition, "extern" or not.
+    if (equal(tok, "=")) {
+      var->is_definition = true;
       gvar_initializer(&tok, tok->next, var);
-    else if (!attr->is_extern)
+    } else if (!attr->is_extern) {
       var->is_tentative = true;
+    }
   }
   return tok;
 }
